@@ -39,6 +39,7 @@ package parse
 //@   errprop ReadHashBranch parse.parseImports Group).Wait
 
 //@ func (*Parser).collectSpecs$1
+//@   requires p != nil && retrieved != nil && retrieved.l != nil
 //@   assert @call:parse.(*Parser).collectSpecs [one-level-deeper] arg5 == maxImportDepth && arg6 == currentImportDepth + 1 && arg4 == retrieved && arg2.filename == c.filename
 //@   errprop (*Parser).collectSpecs
 
